@@ -516,6 +516,8 @@ class ClassReplayer:
         if not emb_has_eval:
             return
         rm = self.real_map(act, args, asg)
+        if not all(isinstance(k, (sp.Symbol, ArraySymbol)) for k in rm):
+            return  # LeafKeyed(m): a compound key does not survive unfolding, the law is about symbol keys
         try:
             with warnings.catch_warnings():
                 warnings.simplefilter("ignore")
@@ -733,12 +735,18 @@ def bucket_behaviours(behs):
     return buckets
 
 
+def pick_active(emb, rng):
+    if emb.builder is not None:
+        return tuple(range(emb.ar))
+    return tuple(rng.sample(emb.expr_positions, emb.ar))
+
+
 def default_assignment(by_sig, rng, sigs, flavour="symbol"):
     slots = {}
     for s in sigs:
         for role in "AB":
             emb = rng.choice(by_sig[s])
-            slots[role + s] = (emb, tuple(rng.sample(emb.expr_positions, emb.ar)))
+            slots[role + s] = (emb, pick_active(emb, rng))
     return Assignment(slots, flavour)
 
 
@@ -756,7 +764,7 @@ def assignment_for(by_sig, rng, sigs, outer_emb, real_pos, model_pos, outer_slot
             active = tuple(range(outer_emb.ar))
         asg.slots[outer_slot] = (outer_emb, active)
     if inner_emb is not None and inner_slot is not None:
-        asg.slots[inner_slot] = (inner_emb, tuple(rng.sample(inner_emb.expr_positions, inner_emb.ar)))
+        asg.slots[inner_slot] = (inner_emb, pick_active(inner_emb, rng))
     return asg
 
 
